@@ -280,7 +280,7 @@ def synthetic_runs(ck: Check, calc, n_runs: int, reqs, expect, stats, samples):
         entries, playlogs, buffs = [], [], []
         clock = 0.0
         for _ in range(rng.randint(0, 6)):
-            clock += rng.choice([0.0, 0.0, 30.0, 720.0, 1000.5])
+            clock += rng.choice([0.0, 0.0, 30.0, 720.0, 1000.5, 0.6, 999.7, 250.25, 1000.3])
             events = []
             for _e in range(rng.randint(0, 7)):
                 tag = rng.choice(SYN_TAGS)
@@ -335,6 +335,22 @@ def synthetic_runs(ck: Check, calc, n_runs: int, reqs, expect, stats, samples):
         stats["run_evaluations"] += 1
         stats["synthetic_runs"] += 1
         total, sums = check_totals(ck, entries, calc, stats, fail)
+        # the best window through the PUBLIC method (entries -> (clock, damage) sequence -> scan), on fractional clocks and
+        # with window lengths that sit exactly on, just below and just above differences of (truncated) clocks
+        seq = [(en.clock, calc.calculate_damage(en)) for en in entries]
+        Ls = {1000, 30}
+        for i_ in range(len(seq)):
+            for j_ in range(i_ + 1, len(seq)):
+                d_true, d_int = seq[j_][0] - seq[i_][0], int(seq[j_][0]) - int(seq[i_][0])
+                Ls.update(x for x in (d_int, int(d_true), int(d_true) + 1) if x > 0)
+        for L in sorted(Ls)[:12]:
+            feat = MaximumDealingIntervalFeature(L).find_maximum_dealing_interval(entries, calc)
+            direct = real_scan(seq, L)
+            stats["feature_vs_scan"] = stats.get("feature_vs_scan", 0) + 1
+            if direct != ("value", *feat):
+                fail("find_maximum_dealing_interval-vs-scan", L=L, clocks=[c for c, _ in seq], observed=feat, expected=direct)
+            elif is_sorted(seq):
+                check_scan_property(ck, seq, L, stats)
         reqs.append({"fn": "report_totals", "entries": [
             {"clock": frac_str(en.clock), "logs": [[l.name, frac_str(calc.get_damage(l))] for l in en.damage_logs]}
             for en in entries]})
@@ -421,6 +437,45 @@ def run_one(ck: Check, job: str, variant: int, n_cmds: int, reqs, expect, stats,
                         "events": n_events, "damage_events_counted": n_q, "total": total,
                         "skills": len(skill_sums), "last_clock": entries[-1].clock if entries else None,
                         "best_window_10s": list(MaximumDealingIntervalFeature(10000).find_maximum_dealing_interval(entries, calc))})
+
+
+def rollback_report(ck: Check, job: str, variant: int, stats):
+    """the report after rollback + other commands equals the report of a fresh engine that executed the surviving commands
+    (`simulation_entries` must not remember what was rolled back; console lines create history entries without plays)"""
+    rng = ck.rng
+    env = simlib.make_env(job, variant)
+    calc = get_damage_calculator(env)
+    plan = simlib.random_plan(rng, job, variant, 24, with_console=True, max_elapse=4000.0)
+    tail = simlib.random_plan(rng, job, variant, 8, with_console=True, max_elapse=4000.0)
+    engine = get_operation_engine(env)
+    for c in plan:
+        engine.exec(c)
+    list(engine.simulation_entries())                       # somebody looked at the report before going back
+    n_hist = len(list(engine.operation_logs()))
+    idx = rng.randint(0, max(0, n_hist - 2))
+    try:
+        engine.rollback(idx)
+        kept = [ol.command for ol in engine.operation_logs()][1:]
+        for c in tail:
+            engine.exec(c)
+        got = list(engine.simulation_entries())
+        fresh = get_operation_engine(env)
+        for c in list(kept) + tail:
+            fresh.exec(c)
+        want = list(fresh.simulation_entries())
+    except Exception as e:  # noqa: BLE001
+        ck.add_failing({"function": "report", "kind": "rollback-report-raises", "job": job, "error": f"{type(e).__name__}: {e}"[:200],
+                        "plan": [simlib.command_text(c) for c in plan], "rollback_to": idx})
+        return
+    stats["rollback_reports"] = stats.get("rollback_reports", 0) + 1
+    a = [(en.clock, en.action, round(calc.calculate_damage(en), 3)) for en in got]
+    b = [(en.clock, en.action, round(calc.calculate_damage(en), 3)) for en in want]
+    if a != b:
+        k = next((i for i, (x, y) in enumerate(zip(a, b)) if x != y), min(len(a), len(b)))
+        ck.add_failing({"function": "report", "kind": "report-after-rollback-differs-from-fresh-run", "job": job,
+                        "plan": [simlib.command_text(c) for c in plan], "rollback_to": idx,
+                        "then": [simlib.command_text(c) for c in tail], "first_difference_at_entry": k,
+                        "observed": a[k:k + 2], "expected": b[k:k + 2], "entries": [len(a), len(b)]})
 
 
 def compare_totals(r, part, calc) -> bool:
@@ -511,6 +566,8 @@ def main(ck: Check):
             ck.notes.append(f"time budget: stopped before run {job}/{variant}")
             break
         run_one(ck, job, variant, n_cmds, reqs, expect, stats, samples)
+        for _ in range(2 if ck.tier == "quick" else 6):
+            rollback_report(ck, job, variant, stats)
 
     # ------------------------------------------------------------ proofs, then model vs code
     # (the Python-side work above needs no Lean; the project lock is held from regeneration to the last driver call)
@@ -605,6 +662,8 @@ def main(ck: Check):
         "nonpositive_window_index_errors": stats["nonpositive_raises"],
         "runs": stats["runs"],
         "synthetic_runs": stats["synthetic_runs"],
+        "best_window_through_the_public_method_vs_scan": stats.get("feature_vs_scan", 0),
+        "reports_after_rollback_compared_with_a_fresh_run": stats.get("rollback_reports", 0),
         "events_seen": stats["events"],
         "events_counted_as_damage": stats["qualifying_events"],
     })
